@@ -99,6 +99,16 @@ extern void cmi_mempool_destroy(struct cmi_mempool *mp);
  */
 extern void cmi_mempool_expand(struct cmi_mempool *mp);
 
+#ifdef CIMBA_VERIF
+/*
+ * Verification hooks, compiled in with -DCIMBA_VERIF only: the harness is told
+ * when an object leaves the pool and when it comes back, so that it can mark
+ * the contents of an object in the pool as not to be read.
+ */
+extern void cmi_verif_mempool_alloc(void *op, size_t obj_sz);
+extern void cmi_verif_mempool_free(void *op, size_t obj_sz);
+#endif
+
 /*
  * Pop an object off the pool stack, allocating more objects if necessary.
  */
@@ -117,6 +127,9 @@ static inline void *cmi_mempool_alloc(struct cmi_mempool *mp)
     void *op = mp->next_obj;
     cmb_assert_debug(op != NULL);
     mp->next_obj = *(void **)op;
+#ifdef CIMBA_VERIF
+    cmi_verif_mempool_alloc(op, mp->obj_sz);
+#endif
 
     return op;
 }
@@ -132,6 +145,9 @@ static inline void cmi_mempool_free(struct cmi_mempool *mp, void *op)
 
     *(void **)op = mp->next_obj;
     mp->next_obj = op;
+#ifdef CIMBA_VERIF
+    cmi_verif_mempool_free(op, mp->obj_sz);
+#endif
 }
 
 /*
